@@ -106,3 +106,23 @@ Theorem C05_v1_files_listed_exactly : forall root (entries : list (list bytes * 
   v1_files root (map v1_item entries) = Some (map (fun e => mk_fi (root ++ fst e) (snd e) None) entries).
 Proof. exact v1_files_exact. Qed.
 Print Assumptions C05_v1_files_listed_exactly.
+
+(* ---------------------------------------------------------------------------------------------- *)
+(* from the integers to the reported float: (matched / consumed) * 100  (Proofs/Percent.v)        *)
+(* ---------------------------------------------------------------------------------------------- *)
+(* IEEE model: Checker.iter_hashes ends with `self._result = (matched / consumed) * 100`.  CPython's
+   int / int is the correctly rounded binary64 value of the exact quotient, and `* 100` is one
+   binary64 multiplication; both round to nearest, ties to even.  `percent m c` is
+   rnd (rnd (m / c) * 100) over the reals, where rnd is Flocq's rounding to the binary64 format
+   (radix 2, FLT_exp (-1074) 53, ZnearestE): the standard characterisation "an IEEE operation returns
+   the rounding of the exact result" (no overflow is possible, all values lie in [0, 100]).
+   These theorems depend on the axioms of Coq's real numbers that Flocq uses (and on nothing else):
+   ClassicalDedekindReals.sig_forall_dec, ClassicalDedekindReals.sig_not_dec,
+   FunctionalExtensionality.functional_extensionality_dep, Classical_Prop.classic. *)
+From Coq Require Import ZArith Reals.
+From TF Require Import Proofs.Percent.
+
+(* every consumed byte matched (matched = consumed > 0): the reported value is exactly 100.0 *)
+Theorem C05_float_is_exactly_100 : forall c : Z, (0 < c)%Z -> percent c c = 100%R.
+Proof. exact percent_intact. Qed.
+Print Assumptions C05_float_is_exactly_100.
